@@ -84,7 +84,18 @@ OtherQuote10 == {[src |-> "{{ \"it\\'s\" }}", out |-> "it\\'s", c |-> "raw", lit
                  [src |-> "{{ 'say \\\"hi\\\"' }}", out |-> "say \\\"hi\\\"", c |-> "raw", lit |-> "say \\\"hi\\\""],
                  [src |-> "{{ \"it\\'s\".raw() }}", out |-> "it\\'s", c |-> "raw", lit |-> "it\\'s"],
                  [src |-> "{{ v = 'a\\\"b' }}{{ v }}|{{ [v][0] }}", out |-> "a\\\"b|a\\\"b", c |-> "raw", lit |-> "a\\\"b"]}
-Cases10(lits) == OtherQuote10 \cup UNION {{[src |-> c.src, out |-> c.out, c |-> c.c, lit |-> Cat(l)] : c \in Ctx10(LitSrc(l, q), Cat(Escape(l)), Cat(l))} : l \in lits, q \in {"\"", "'"}}
+\* two literals in one rendering, one spelling the escaped text of the other ("<b>" and "&lt;b&gt;"): each keeps its own meaning
+\* whichever is evaluated first
+PairLits == {<<"<", "a", ">">>, <<"&">>, <<"&", "l", "t", ";">>, <<"<">>, <<"a", "&", "a">>, <<"&", "a", "m", "p", ";">>, <<"x", ">", "3">>}
+Pairs10 == UNION {LET l2 == Escape(l)  L1 == LitSrc(l, q)  L2 == LitSrc(l2, q) IN
+                  {[src |-> "{{ " \o L2 \o ".len() > 999 ? 1 : \"\" }}{{ " \o L1 \o ".raw() }}", out |-> Cat(l), c |-> "raw", lit |-> Cat(l)],
+                   [src |-> "{{ v = " \o L2 \o " }}{{ w = " \o L1 \o " }}{{ w.raw() }}", out |-> Cat(l), c |-> "raw", lit |-> Cat(l)],
+                   [src |-> "{{ " \o L1 \o ".raw().len() > 999 ? 1 : \"\" }}{{ " \o L2 \o " }}", out |-> Cat(Escape(l2)), c |-> "print", lit |-> Cat(l2)],
+                   [src |-> "{{ " \o L1 \o ".len() > 999 ? 1 : \"\" }}{{ " \o L2 \o ".raw() }}", out |-> Cat(l2), c |-> "raw", lit |-> Cat(l2)],
+                   [src |-> "{{ " \o L2 \o ".raw().len() > 999 ? 1 : \"\" }}{{ " \o L1 \o " }}", out |-> Cat(Escape(l)), c |-> "print", lit |-> Cat(l)],
+                   [src |-> "{{ [" \o L1 \o ", " \o L2 \o "][1].raw() }}", out |-> Cat(l2), c |-> "raw", lit |-> Cat(l2)],
+                   [src |-> "{{ [" \o L2 \o ".raw(), " \o L1 \o ".raw()][1] }}", out |-> Cat(l), c |-> "raw", lit |-> Cat(l)]} : l \in PairLits, q \in {"\"", "'"}}
+Cases10(lits) == OtherQuote10 \cup Pairs10 \cup UNION {{[src |-> c.src, out |-> c.out, c |-> c.c, lit |-> Cat(l)] : c \in Ctx10(LitSrc(l, q), Cat(Escape(l)), Cat(l))} : l \in lits, q \in {"\"", "'"}}
 \* The verdict for escaped contexts uses C10's own predicates (no raw angle bracket, every & starts an entity, quotes as
 \* written, unescaping gives the literal back), so that another entity spelling is not an alarm; `esc` is the
 \* specification's rendering, kept for diagnosis. raw() contexts must give exactly the original text.
